@@ -17,7 +17,9 @@ class Fault(Exception):
 
 def make_component(seed, mode, fail_at, fail_kind, log):
     """a 1-2 input, 2-output component with optional model fidelity; the k-th model evaluation (1-based, in call order) fails if k in fail_at:
-    'raise' -> exception, 'nan' -> both outputs NaN, 'nan-one' -> only the first output NaN.  mode: 'serial' | 'vector' | 'executor'"""
+    'raise' -> exception, 'nan' -> both outputs NaN, 'nan-one' -> only the first output NaN, 'nan-part' -> only one entry of the array-valued
+    extra return `prof` NaN.  mode: 'serial' | 'vector' | 'executor'.  Non-vectorised models also report a cost (2 + sum(alpha)) and return the
+    extra 3-entry array `prof`."""
     from amisc import Component, Variable
     from amisc.training import SparseGrid
     r = random.Random(seed)
@@ -33,6 +35,9 @@ def make_component(seed, mode, fail_at, fail_kind, log):
         return (sum(c * math.cos(2.0 * xv + k) for k, (c, xv) in enumerate(zip(cp, x))) + 0.5 * a,
                 sum(c * xv * xv for c, xv in zip(cq, x)) + 1.0 + 0.25 * a)
 
+    def prof_of(p, q):
+        return np.array([p + q, 1.0 + p * q, 3.0 + p - q])
+
     def one(x, alpha):
         counter['k'] += 1
         k = counter['k']
@@ -43,9 +48,12 @@ def make_component(seed, mode, fail_at, fail_kind, log):
             if fail_kind == 'raise':
                 raise Fault(f'evaluation {k} failed')
             if fail_kind == 'nan':
-                return float('nan'), float('nan')
-            return float('nan'), q
-        return p, q
+                return float('nan'), float('nan'), prof_of(p, q)
+            if fail_kind == 'nan-part':
+                pr = prof_of(p, q); pr[1] = float('nan')
+                return p, q, pr
+            return float('nan'), q, prof_of(p, q)
+        return p, q, prof_of(p, q)
 
     if mode == 'vector':
         def model(inputs, model_fidelity=None):
@@ -57,19 +65,19 @@ def make_component(seed, mode, fail_at, fail_kind, log):
     else:
         def model(inputs, model_fidelity=None):
             alpha = tuple(int(v) for v in np.atleast_1d(model_fidelity)) if model_fidelity is not None else ()
-            p, q = one(tuple(float(inputs[f'x{k}']) for k in range(nx)), alpha)
-            return {'p': p, 'q': q}
+            p, q, prof = one(tuple(float(inputs[f'x{k}']) for k in range(nx)), alpha)
+            return {'p': p, 'q': q, 'prof': prof, 'model_cost': 2.0 + sum(alpha)}
     kw = {'data_fidelity': tuple(levels)}
     if na:
         kw['model_fidelity'] = (1,) * na
     comp = Component(model, xs, ys, name='fc', vectorized=(mode == 'vector'), training_data=SparseGrid(knots_per_level=kpl), **kw)
-    return comp, nx, na, levels, value
+    return comp, nx, na, levels, value, prof_of
 
 
 def run_history(seed, mode, fail_at, fail_kind, nsteps):
     import c15
     log = []
-    comp, nx, na, levels, value = make_component(seed, mode, fail_at, fail_kind, log)
+    comp, nx, na, levels, value, prof_of = make_component(seed, mode, fail_at, fail_kind, log)
     mx = (1,) * na + tuple(levels)
     r = random.Random(seed + 1)
     active, order = set(), []
@@ -116,7 +124,25 @@ def run_history(seed, mode, fail_at, fail_kind, nsteps):
         for coord, yi in d.items():
             stored[(tuple(alpha), tuple(coord))] = (float(yi['p']), float(yi['q']))
     errors = {(tuple(alpha), tuple(coord)) for alpha, d in td.error_map.items() for coord in d}
-    imputed = {(tuple(alpha), tuple(coord)): {k: float(v) for k, v in yi.items()} for alpha, d in td.yi_nan_map.items() for coord, yi in d.items()}
+    imputed = {(tuple(alpha), tuple(coord)): {k: (float(v) if np.ndim(v) == 0 else [float(t) for t in v]) for k, v in yi.items() if k in ('p', 'q', 'prof')}
+               for alpha, d in td.yi_nan_map.items() for coord, yi in d.items()}
+    profs = {(tuple(alpha), tuple(coord)): [float('nan') if t is None else float(t) for t in np.ravel(np.asarray(yi['prof'], dtype=object))] for alpha, d in td.yi_map.items() for coord, yi in d.items() if 'prof' in yi}
+    err_records = {(tuple(alpha), tuple(coord)): {'fidelity': tuple(int(v) for v in np.atleast_1d(rec.get('model_kwargs', {}).get('model_fidelity', ()))),
+                                                  'inputs': tuple(float(np.ravel(rec['inputs'][v])[0]) for v in names)}
+                   for alpha, d in td.error_map.items() for coord, rec in d.items()}
+    costs = {'model_costs': {tuple(a): float(v) for a, v in comp.model_costs.items()},
+             'misc_costs': {(tuple(a), tuple(b)): float(v) for a, b, v in comp.misc_costs}}
+    handed = {}
+    if err is None:
+        for a, b in sorted(comp.active_set.union(comp.candidate_set)):
+            try:
+                # the array-valued extra return is an undeclared (object) quantity: where an evaluation RAISED it is stored as None, and asking
+                # for it as numeric training data is outside the property; it is requested for the NaN kinds only
+                yv = ['p', 'q'] + (['prof'] if mode != 'vector' and fail_kind != 'raise' else [])
+                _, yt = comp.get_training_data(a, b, y_vars=yv)
+                handed[(tuple(a), tuple(b))] = {k: np.asarray(v, dtype=float).tolist() for k, v in yt.items() if k in ('p', 'q', 'prof')}
+            except Exception as e:
+                handed[(tuple(a), tuple(b))] = f'{type(e).__name__}: {e}'
     grids = {v: list(td.x_grids.get(v, [])) for v in names}
     pred = None
     if err is None and active:
@@ -126,7 +152,8 @@ def run_history(seed, mode, fail_at, fail_kind, nsteps):
         except Exception as e:
             err = f'predict: {type(e).__name__}: {e}'
     return {'comp': comp, 'log': log, 'order': order, 'stored': stored, 'errors': errors, 'imputed': imputed, 'grids': grids, 'pred': pred,
-            'raised': err, 'sets': snapshot(comp), 'names': names, 'na': na, 'batches': batches}
+            'raised': err, 'sets': snapshot(comp), 'names': names, 'na': na, 'batches': batches, 'profs': profs, 'err_records': err_records, 'costs': costs,
+            'handed': handed}
 
 
 def key_of(run, entry):
@@ -147,24 +174,28 @@ def run(ctx: Ctx):
     rng = ctx.rng
     ctx.rule = ('components with 1-2 inputs, 2 outputs, optional model fidelity; a scripted random admissible history is run once failure-free and then '
                 'with the k-th model evaluation failing, for EVERY k (single failures) and for random subsets (multi-failures), in three failure kinds '
-                '(raise, NaN in all outputs, NaN in one of two outputs) and three execution modes (serial, vectorised, harness executor with a random '
+                '(raise, NaN in all outputs, NaN in one of two outputs, NaN in one entry of an array-valued extra return) and three execution modes (serial, vectorised, harness executor with a random '
                 'completion order); compared with the failure-free run: index sets and weights, every stored output that did not fail (incl. the other '
-                'output at a NaN point), error records = exactly the failed (fidelity, point), imputed values only where a value is missing, finite '
-                'predictions; the error re-basing is also run through Model/Fault.v; non-trivial = a failing position other than the first')
+                'output at a NaN point), error records = exactly the failed (fidelity, point), imputed values only where a value (entry) is missing, the data handed out by get_training_data, the '
+                'content of error records (fidelity, inputs), the cost accounts, finite predictions; the error re-basing is also run through Model/Fault.v; non-trivial = a failing position other than the first')
     lines, meta = [], []
     for n in range(ctx.pick(6, 30)):
         seed = ctx.seed * 31 + n
         nsteps = rng.randint(5, 7)
-        base = run_history(seed, 'serial', set(), 'raise', nsteps)
+        base = run_history(seed, 'serial', set(), 'nan', nsteps)
         total = len(base['log'])
         positions = list(range(1, total + 1))
-        jobs = [({k}, rng.choice(['raise', 'nan', 'nan-one']), rng.choice(['serial', 'serial', 'vector', 'executor'])) for k in positions]
+        jobs = [({k}, rng.choice(['raise', 'nan', 'nan-one', 'nan-part']), rng.choice(['serial', 'serial', 'vector', 'executor'])) for k in positions]
+        if base['na']:          # mixed-fidelity batches through the executor: every position raising (error records must name the right fidelity)
+            jobs += [({k}, 'raise', 'executor') for k in positions]
         for _ in range(ctx.pick(3, 10)):
-            jobs.append((set(rng.sample(positions, min(len(positions), rng.randint(2, 4)))), rng.choice(['raise', 'nan', 'nan-one']),
+            jobs.append((set(rng.sample(positions, min(len(positions), rng.randint(2, 4)))), rng.choice(['raise', 'nan', 'nan-one', 'nan-part']),
                          rng.choice(['serial', 'vector', 'executor'])))
         for fail_at, kind, mode in jobs:
             if mode == 'vector' and kind == 'raise':
                 kind = 'nan'          # a vectorised model cannot fail for one sample only by raising
+            if mode == 'vector' and kind == 'nan-part':
+                kind = 'nan-one'      # the array-valued extra return exists only for the non-vectorised models
             case = {'system_seed': seed, 'steps': nsteps, 'fail_at': sorted(fail_at), 'kind': kind, 'mode': mode, 'evaluations': total}
             ctx.case(case, nontrivial=min(fail_at) > 1, kind=f'{kind}:{mode}')
             run_ = run_history(seed, mode, fail_at, kind, nsteps)
@@ -191,7 +222,9 @@ def run(ctx: Ctx):
                 if k not in run_['stored']:
                     ctx.violate('C14:stored-data-missing', f'no stored data at {k}', case); break
                 p1, q1 = run_['stored'][k]
-                if k in failed_keys:
+                if k in failed_keys and kind == 'nan-part':
+                    exp_p, exp_q = p0, q0
+                elif k in failed_keys:
                     exp_p = float('nan'); exp_q = q0 if kind == 'nan-one' else float('nan')
                 else:
                     exp_p, exp_q = p0, q0
@@ -203,8 +236,76 @@ def run(ctx: Ctx):
             for k, d in run_['imputed'].items():
                 if k not in failed_keys:
                     ctx.violate('C14:imputed-where-nothing-missing', f'an imputed value exists at {k}, which did not fail', case); break
-                if kind == 'nan-one' and abs(d['q'] - base['stored'][k][1]) > 0:
+                if kind in ('nan-one', 'nan-part') and abs(d['q'] - base['stored'][k][1]) > 0:
                     ctx.violate('C14:imputation-overwrites-present-output', f'at {k} output q was present ({base["stored"][k][1]}) but the imputed record holds {d["q"]}', case)
+                if kind == 'nan-part':
+                    bp = base['profs'][k]; ip = d.get('prof')
+                    if abs(d['p'] - base['stored'][k][0]) > 0 or not isinstance(ip, list) or len(ip) != 3 or ip[0] != bp[0] or ip[2] != bp[2] or not math.isfinite(ip[1]):
+                        ctx.violate('C14:imputation-overwrites-present-output', f'at {k} only entry 1 of the array-valued output was missing (failure-free '
+                                    f'{bp}, p={base["stored"][k][0]}) but the imputed record holds prof={ip}, p={d["p"]}', case)
+            # array-valued extra return: NaN exactly where it failed, identical elsewhere
+            if mode != 'vector':
+                for k, bp in base['profs'].items():
+                    gp = run_['profs'].get(k)
+                    if k in failed_keys and kind == 'nan-part':
+                        okp = gp is not None and gp[0] == bp[0] and gp[2] == bp[2] and gp[1] != gp[1]
+                    elif k in failed_keys:
+                        continue
+                    else:
+                        okp = gp == bp
+                    if not okp:
+                        ctx.violate('C14:other-data-corrupted', f'stored array-valued output at {k} is {gp}, failure-free {bp} (failed points {sorted(failed_keys)})', case); break
+            # the data handed to the interpolator: identical to the failure-free data except at failed entries, which are finite
+            for ab, yb in base['handed'].items():
+                yg = run_['handed'].get(ab)
+                if isinstance(yb, str):
+                    continue
+                if not isinstance(yg, dict):
+                    ctx.violate('C14:training-data-unavailable', f'get_training_data{ab}: {yg}', case); break
+                a_, b_ = ab
+                coords = list(run_['comp'].training_data._expand_grid_coords(b_))
+                bad = None
+                for name in ('p', 'q', 'prof'):
+                    if name not in yb or name not in yg:
+                        continue
+                    A = np.asarray(yb[name], dtype=float); G = np.asarray(yg.get(name, []), dtype=float)
+                    if A.shape != G.shape:
+                        bad = f'{name}: shape {G.shape} vs {A.shape}'; break
+                    for j, c in enumerate(coords):
+                        failed_here = (a_, tuple(c)) in failed_keys
+                        ra, rg = np.ravel(A[j]), np.ravel(G[j])
+                        for e in range(len(ra)):
+                            missing = failed_here and (kind in ('raise', 'nan') or (kind == 'nan-one' and name == 'p') or (kind == 'nan-part' and name == 'prof' and e == 1))
+                            if missing:
+                                if not math.isfinite(rg[e]):
+                                    bad = f'{name}[{e}] at {c} is {rg[e]} (a failed entry must be imputed)'
+                            elif rg[e] != ra[e]:
+                                bad = f'{name}[{e}] at {c} is {rg[e]}, failure-free {ra[e]}, and that entry did not fail'
+                        if bad:
+                            break
+                    if bad:
+                        break
+                if bad:
+                    ctx.violate('C14:training-data-differs-where-nothing-failed', f'get_training_data{ab}: {bad} (failed points {sorted(failed_keys)})', case); break
+            # error records name the failed evaluation: its fidelity and its inputs
+            for k, rec in run_['err_records'].items():
+                xs_ = tuple(float(run_['grids'][v][k[1][j]]) for j, v in enumerate(run_['names']))
+                if rec['fidelity'] != k[0] or any(abs(u - w) > 1e-12 for u, w in zip(rec['inputs'], xs_)):
+                    ctx.violate('C14:error-record-wrong-content', f'the error record at {k} names fidelity {rec["fidelity"]} and inputs {rec["inputs"]}; the failed '
+                                f'evaluation had fidelity {k[0]} and inputs {xs_}', case); break
+            # cost accounts: failures do not change the cost per evaluation nor the number of points charged to an index
+            if mode != 'vector':
+                for which in ('model_costs', 'misc_costs'):
+                    for key, v0 in base['costs'][which].items():
+                        v1 = run_['costs'][which].get(key)
+                        if v1 is None or not (abs(v1 - v0) <= 1e-9 * (1 + abs(v0))):
+                            # the cost of a fidelity whose very first evaluation failed is unknowable when its index is charged (the default 1.0
+                            # per point is used): finite values are accepted there, NaN never is
+                            ka = key if which == 'model_costs' else key[0]
+                            if (v1 == v1 or (v1 is None and which == 'model_costs')) and any(a_ == ka and all(c == 0 for c in coord) for a_, coord in failed_keys):
+                                continue
+                            ctx.violate('C14:cost-account-changed-by-failure', f'{which}[{key}] is {v1}, failure-free {v0} (failed points {sorted(failed_keys)}, {kind})', case)
+                            break
             if run_['pred'] is None or any(not np.all(np.isfinite(v)) for v in run_['pred'].values()):
                 ctx.violate('C14:prediction-not-finite', f'prediction after contained failures: {run_["pred"]}', case)
             # correspondence: the error re-basing of every observed batch through Model/Fault.v
